@@ -47,8 +47,8 @@ META = {
                   'on generated graphs, selections, flags, target trees and DB backends and diffing every observable; '
                   'the monitor is the property statement evaluated on the observed behaviour.',
     'level_note': 'Trusted: Lean kernel (axioms propext/Classical.choice/Quot.sound only); the Python harness and doitdrv; '
-                  'OrderedDict / list / sorted / os.remove / os.rmdir semantics are modelled, fnmatch is modelled for '
-                  '`*`, `?` and literals only.  Tasks whose clean behaviour is invisible (no `clean`, or `clean: True` '
+                  'OrderedDict / list / sorted / os.remove / os.rmdir semantics are modelled, fnmatch is the matcher of M8 (Sel.glob: '
+                  '`*`, `?`, bracket classes; C12.glob_spec_full; compared with fnmatch.fnmatchcase directly by C12).  Tasks whose clean behaviour is invisible (no `clean`, or `clean: True` '
                   'with no existing target) cannot be observed and are excluded from the observed order, as in the model.',
     'rule': 'case = task table (1-9 tasks, groups with sub-tasks, task_dep/setup edges from a random topological order, '
             'sometimes a cycle; literal names with [ ] ?) + clean = True | list of 1-3 actions of many shapes + argv + '
@@ -67,7 +67,7 @@ META = {
                     'patterns use only `*`, `?` and literal characters',
                     'only dbm.dumb is available as dbm implementation in this sandbox'],
     'trusted': ['python dict/OrderedDict/sorted/os semantics: modelled, exercised through the real code',
-                'fnmatch: modelled for * ? and literals'],
+                'fnmatch: the model of C12 (POSIX, CPython 3.12 fnmatch.translate)'],
     'models': ['M7', 'M8'],
 }
 
@@ -265,6 +265,8 @@ def gen_targets(rng, tasks):
 
 
 PATTERNS = ['*', 'g*', 't*', '*:s0', '*:*', 'g1:*', '*1', 'u*', '*x*', 'g?*']
+BRACKET_FORM = {'g*': 'g[0-9]*', 't*': '[t]*', '*:s0': '*:s[0]', '*:*': '*[:]*', 'g1:*': 'g[!0]:*', '*1': '*[!0]', 'u*': '[!gt]*',
+                '*x*': '*[x-z]*', 'g?*': 'g[]0-9]*'}
 
 
 def gen_args(rng, tasks):
@@ -283,6 +285,10 @@ def gen_args(rng, tasks):
         pos, mode = [rng.choice(labels) for _ in range(rng.randint(1, 3))], 'names'
     elif r < 0.83:
         pos, mode = [rng.choice(PATTERNS)], 'glob'
+        # wave 5 (the matcher is Sel.glob, all of fnmatch): for half of the task sets the pattern is written with a
+        # bracket class instead (chosen from the case itself: the random stream of the other cases is unchanged)
+        if pos[0] in BRACKET_FORM and len(''.join(labels)) % 2 == 0:
+            pos, mode = [BRACKET_FORM[pos[0]]], 'glob-bracket-class'
     elif r < 0.95:
         pos, mode = [rng.choice(labels + PATTERNS) for _ in range(rng.randint(2, 3))], 'mixed'
     else:
